@@ -183,7 +183,9 @@ def run(ctx):
                 op_kinds.add(o['fault_hit'][1] if o['fault_hit'][1] != 'exec' else o['fault_hit'][2])
                 items.append((dict(mode='error', prog=prog, kind=kind, k=k, hit=o['fault_hit']), o['trace'],
                               None if ok else 'content %r is not a unit boundary %r' % (sorted(dump or []), allowed_contents(evs))))
-                # (a) crash in a child process
+                # (a) crash in a child process (for programs run with all three session kinds: one kind per program, rotating)
+                if kind != kinds[pi % 3]:
+                    continue
                 path, cevs, code = crash_run(ctx, copy.deepcopy(prog), kind, k)
                 if code != 77:
                     raise MachineryError('child for %r %s k=%d exited with %r instead of dying at the fault' % (prog, kind, k, code))
